@@ -91,12 +91,17 @@ class Obligation:
         self.model = None
         self.state = None
 
-    def smt2(self):
+    def smt2(self, qf_only=False):
         s = z3.Solver()
         for a in self.assumptions:
+            if qf_only and z3.is_quantifier(a):
+                continue
             s.add(a)
         s.add(z3.Not(self.goal))
         return s.to_smt2()
+
+    def has_quantified_assumptions(self):
+        return any(z3.is_quantifier(a) for a in self.assumptions)
 
 
 EXC_PARENTS = {
@@ -301,6 +306,11 @@ class Engine:
         ok = z3.simplify(ok)
         if z3.is_true(ok):
             return
+        cc = self.cur_contract
+        if cc is not None and exc_name in cc.assume_absent and st.call_depth == 0:
+            self.used_assumptions.add(f"assumed: no {exc_name} from built-in operations in {self.cur_fn} ({cc.assume_absent[exc_name]})")
+            st.assume(ok)
+            return
         line = getattr(node, "lineno", 0)
         rf = "sat" if z3.is_false(ok) else self.quick_sat(st.pc, z3.Not(ok))
         if rf != "unsat" and not z3.is_false(ok) and any(z3.is_quantifier(a) for a in st.pc):
@@ -483,12 +493,12 @@ class Engine:
         if st.ghost.get("dyn") and z3.is_int_value(z3.simplify(obj.ref)):
             term = z3.simplify(term)
         v = self.wrap(st, term, ft)
-        self.assume_wf(st, v, m)
+        self.assume_wf(st, v, m, obj.ref)
         if self.line_sort_hook:
             v = self.line_sort_hook(obj, field, v)
         return v
 
-    def assume_wf(self, st: State, v: V, src_map=None):
+    def assume_wf(self, st: State, v: V, src_map=None, holder=None):
         """Heap well-formedness: a reference read from the heap denotes an allocated object. When it is
         read from a map that is still the function-entry map (possibly under a few Stores), it is either
         one of the stored values or was allocated before the function started (<= alloc0)."""
@@ -500,12 +510,22 @@ class Engine:
                 m = src_map
                 depth = 0
                 while z3.is_app(m) and m.decl().kind() == z3.Z3_OP_STORE and depth < 8:
-                    stored.append(m.arg(2))
+                    stored.append((m.arg(1), m.arg(2)))
                     m = m.arg(0)
                     depth += 1
                 if z3.is_const(m) and m.decl().kind() == z3.Z3_OP_UNINTERPRETED and m.decl().name().startswith("H_") \
-                        and all(x.sort() == v.ref.sort() for x in stored):
-                    st.assume(z3.Or([v.ref <= st.alloc0] + [v.ref == x for x in stored]))
+                        and all(x.sort() == v.ref.sort() for _i, x in stored):
+                    # either an entry value, or the value stored at this very slot
+                    alts = [v.ref <= st.alloc0]
+                    for idx, x in stored:
+                        if holder is not None and idx.sort() == holder.sort():
+                            alts.append(z3.And(holder == idx, v.ref == x))
+                        else:
+                            alts.append(v.ref == x)
+                    fact = z3.Or(alts)
+                    # only objects that existed on entry have their fields in the entry heap (objects created by a
+                    # callee under contract live in the unconstrained part of the maps)
+                    st.assume(z3.Implies(holder <= st.alloc0, fact) if holder is not None else fact)
         if isinstance(v, VTuple):
             for it in v.items:
                 self.assume_wf(st, it)
@@ -545,7 +565,7 @@ class Engine:
         em = st.eltmap(es)
         term = z3.Select(z3.Select(em, l.ref), idx)
         v = self.wrap(st, term, l.elem)
-        self.assume_wf(st, v, em if z3.is_const(em) else None)
+        self.assume_wf(st, v, em if z3.is_const(em) else None, l.ref)
         return v
 
     def list_arr(self, st: State, l: VList):
@@ -1224,6 +1244,8 @@ class Engine:
             from .builtins import SpecFalse
             ts = []
             for a in n.args:
+                if n.func.id == "implies" and len(ts) == 1 and z3.is_false(z3.simplify(ts[0])):
+                    return VBool(True)      # antecedent is false on this path: the consequent need not be well-formed
                 try:
                     ts.append(self.truthy(st, self.ev(a, st), n))
                 except SpecFalse as e:
@@ -1326,6 +1348,11 @@ class Engine:
             return self.b.call_type(st, fv.name, args, kwargs, node)
         if isinstance(fv, VExt):
             return self.b.call_external_obj(st, fv, args, kwargs, node)
+        if isinstance(fv, VOpaque):
+            # a callable handed in by the caller: recorded as an event; assumed not to touch the objects the function works on
+            st.trace.append(Event("callback", "call", list(args), dict(kwargs), getattr(node, "lineno", 0)))
+            self.used_assumptions.add("callbacks passed as parameters do not modify the objects the function works on")
+            return VNone()
         raise Unsupported(f"call of {fv!r}", node)
 
     def bind_params(self, st, fnode, args, kwargs, node, defaults_module=None):
@@ -1716,7 +1743,12 @@ class Engine:
                 continue  # not needed by any caller's proof: keeps the callers' queries small (still proved for the callee)
             if self.mentions_trace(text):
                 continue  # statements about the callee's own output events are not usable by callers
-            st.assume(self.eval_clause(st, text, env, fn.module, old_state=pre, extra={"result": res}))
+            try:
+                st.assume(self.eval_clause(st, text, env, fn.module, old_state=pre, extra={"result": res}))
+            except Unsupported as u:
+                if "unknown name" in u.reason:
+                    continue    # the clause speaks about the callee's locals: not usable by callers
+                raise
         if c.assumed:
             self.used_assumptions.add(f"assumed contract: {fn.key}")
         return res
